@@ -245,10 +245,10 @@ CHECKS["C04"] = dict(
           "deg_range over Q. Angles carry Deg/Rad types; the snapshot's algorithm is refuted by proved witnesses (asis_*; repaired by "
           "fixes bd9a8bfc, dae7aac7, 72e92fe3). Tie: the same generic definitions run at Float in the driver against the real Grid on "
           "generated sources x histories (1e-12 on directions; all 6! access orders in thorough) and the Lean Bool spec (proved to decide "
-          "the Prop at tolerance 0) judges the implementation's reports, also on SCRIP/Exodus/GEOS-CS/MPAS/UGRID sample files. Round trip with the code's convention on the FULL domain (lonlat_of_xyz_of_lonlat: any real longitude, lat in [-90,90] -> (wrap180 lon, lat) outside the snap cap, (0, +-90) inside; wrap180_seam: +180 is reported as -180) and exactly which inputs snap (snap_branch_iff, snap_cap_iff_lat: |lat| within arccos(1-tol) of a pole)."),
+          "the Prop at tolerance 0) judges the implementation's reports, also on SCRIP/Exodus/GEOS-CS/MPAS/UGRID sample files. Round trip with the code's convention on the FULL domain (lonlat_of_xyz_of_lonlat: any real longitude, lat in [-90,90] -> (wrap180 lon, lat) outside the snap cap, (0, +-90) inside; wrap180_seam: +180 is reported as -180) and exactly which inputs snap (snap_branch_iff, snap_cap_iff_lat: |lat| within arccos(1-tol) of a pole). Derived centres read only the element's own real corners (centroid_row_local, centroid_renumber, centroid_orphans_irrelevant, edge_centre_orphans_irrelevant: unused nodes numbered first / middle / LAST and any renumbering change nothing); the truth of every unsupplied centre is that corner mean evaluated by the Lean driver (C04.centres) from the true node positions and the connectivity, on sources whose numbering/coverage is randomised (unused nodes first/middle/last, descending/shuffled ids, biggest face first/middle/last, duplicate coordinates)."),
     note=_TB + "Modelled, not verified: IEEE rounding, libm vs NumPy (compared at 1e-12), xarray storage, that readers deliver "
          "consistent sources; positions within 1e-10 of the snap threshold are dropped; normalize_cartesian_coordinates() is judged on "
-         "directions only (its node-only _check_normalization leaves stored centre vectors un-normalised: recorded as a note). Model and implementation lon/lat reports are additionally compared number by number (informational counter, no verdict: the property fixes direction and range, not the representative).",
+         "directions only (its node-only _check_normalization leaves stored centre vectors un-normalised: recorded as a note). Model and implementation lon/lat reports are additionally compared number by number (informational counter, no verdict: the property fixes direction and range, not the representative). The generator's own Python corner mean is kept only as a 1e-13 cross-check of the Lean value (an oracle disagreement raises, it is never a verdict).",
     technique="Lean 4 theorem over a hand model (provenance state machine, induction over histories) + differential correspondence with Lean-evaluated spec",
 )
 
@@ -334,11 +334,11 @@ CHECKS["C05"] = dict(
           "equals Grid.compute_face_areas/face_areas/calculate_total_face_area to rel 1e-11 for every rule, order and both inputs; tables are "
           "bit-identical to the live ones. TESTED, not proved (oracle: exact spherical excess in the Lean driver, faces re-checked by the Lean "
           "predicate wfFace): accuracy 1e-6/1e-4/1e-2 at <=10/30/65 deg with the default rule, convergence with order, sum = 4*pi, rotation/"
-          "renumbering/start-corner/subdivision at Float. Part J: the integrand both Jacobian routines evaluate is proved (over R, any corners, any parameter point with F != 0) to be the area element |dP/da x dP/db| of the code's parametrisation P = F/|F| (bary_area_element, gauss_area_element, via normalize_hasDerivAt and the exact partial derivatives baryF_partial_*/gaussF_partial_*), with closed forms jacCore_eq_triple = |F.(AxB)|/|F|^3, jacBary_closed = |n1.(n2xn3)|/(2|F|^3), jacGauss_closed = |1-b||n1.(n2xn3)|/|F|^3 - so the table theorems are about quadrature of the true solid-angle density."),
+          "renumbering/start-corner/subdivision at Float. Part J: the integrand both Jacobian routines evaluate is proved (over R, any corners, any parameter point with F != 0) to be the area element |dP/da x dP/db| of the code's parametrisation P = F/|F| (bary_area_element, gauss_area_element, via normalize_hasDerivAt and the exact partial derivatives baryF_partial_*/gaussF_partial_*), with closed forms jacCore_eq_triple = |F.(AxB)|/|F|^3, jacBary_closed = |n1.(n2xn3)|/(2|F|^3), jacGauss_closed = |1-b||n1.(n2xn3)|/|F|^3 - so the table theorems are about quadrature of the true solid-angle density. The accept/reject decision is part of the model: Area.supported (rule, order) is proved equal to the regenerated table keys for every natural number (tri_keys, gauss_keys, supported_iff_table) and to cover the property's quantifier (supported_quantifier); the harness requires every accepted (rule, order) in 0..13 to be accepted and answered consistently (total = sum, integrate(1) = sum, integrate(data) = areas.data, latlon=True/False equal) by every public entry - compute_face_areas, calculate_total_face_area, face_areas, UxDataArray.integrate - and an exception through any entry on an input inside the quantifier is a spec failure C05/raises/<rule>/<order>/<Exception> with the call as replay."),
     note=_TB + "Modelled, not verified: IEEE rounding, libm sin/cos/sqrt/atan2, numba JIT, np.sum; the flip identity of exact spherical area is a "
          "hypothesis of fan_shift. The snapshot's compute_face_areas(latlon=False) dropped z (Lean: asis_cartesian_area_zero, "
          "asis_violates_input_independence); repaired by fix afa9bf59. float32 coordinates raise a numba TypingError (outside the quantifier, "
-         "reported only). The step from the area element to the area integral (change of variables) and the quadrature error of the non-polynomial density 1/|F|^3 are not proved; the accuracy thresholds stay tests.",
+         "reported only). The step from the area element to the area integral (change of variables) and the quadrature error of the non-polynomial density 1/|F|^3 are not proved; the accuracy thresholds stay tests. Orders the model rejects are probed only in forked children of a subprocess and recorded, not judged: on the current tree gaussian >= 11 crashes the interpreter (SIGSEGV) and gaussian 0 / triangular 0,2,3,5,6,7,9,11,13 are silently accepted by the compiled kernels with meaningless numbers (no validation in compute_face_areas) - outside the property's quantifier, reported only.",
     technique="Lean 4: regenerated-table theorems (decide +kernel) + theorems over a hand model + differential correspondence with a Lean-evaluated Float spec",
 )
 
@@ -431,7 +431,7 @@ CHECKS["C08"] = dict(
           "UGRID and MPAS files) is compared with the fresh-copy reference computed in a separate worker that restores every container of "
           "uxarray.conventions.*/constants; exports and inventories by the superset rule; globals digested before/after each op; verdict = Lean "
           "traceOK on the observed trace; the Lean model predicts Grid._ds's variable set and dask flags after every step; JIT-off worker; "
-          "thorough: all pairs, fresh interpreters, leanchecker. The populate-unit table itself is REGENERATED from the source on every run (harness/translate_c08.py: ast over uxarray/grid/*.py -> Gen/GridWrites.lean: per getter the _ds keys / private attributes written with provenance, getters read, longitude-wrap calls, module-level / in-place / unmodelled writes) and re-proved equal to the model's table: gen_no_unlisted_writes, gen_units_match, gen_same_meaning, gen_wraps (decide +kernel against today's source), so the well-formedness proof ux_wfVar and the history-independence theorems are about the source's read/write table, not a hand transcription. Every module-level dict/list/set/ndarray of every loaded uxarray.* module (62 at present) is digested around every history (signature C08/globals-wide/...)."),
+          "thorough: all pairs, fresh interpreters, leanchecker. The populate-unit table itself is REGENERATED from the source on every run (harness/translate_c08.py: ast over uxarray/grid/*.py -> Gen/GridWrites.lean: per getter the _ds keys / private attributes written with provenance, getters read, longitude-wrap calls, module-level / in-place / unmodelled writes) and re-proved equal to the model's table: gen_no_unlisted_writes, gen_units_match, gen_same_meaning, gen_wraps (decide +kernel against today's source), so the well-formedness proof ux_wfVar and the history-independence theorems are about the source's read/write table, not a hand transcription. Every module-level dict/list/set/ndarray of every loaded uxarray.* module (62 at present) is digested around every history (signature C08/globals-wide/...). The tree wrappers are modelled with one slot per coordinates kind and the bookkeeping that travels with the wrapper (_n_elements: which k a query accepts) is part of every cached observation; asis_stale_count is the proved counterexample for bookkeeping refreshed only when a slot is built. Tree / subset observations take k from the boundaries of the grid's element counts (0, 1, n, n+1 of every kind), radii 0 / tiny / huge, and record the exception type; cached wrappers are revisited deliberately (A->B->A, A->B->C->A for every kind x tree type x coordinate system, also through subset.nearest_neighbor)."),
     note=_TB + "Proved: the memoisation/cache/world theorems above, for the model. Differential-test level only: which stored values feed each write and the presence guards of the populate functions "
           "(hand-transcribed; tied by the value comparison with the fresh-copy reference), the read sets of METHODS (exporters, trees, isel...; Grid._ds vs model store after every step) - the read/write sets of the property getters are regenerated from the source and proved equal to the model's (gen_units_match); JIT on/off equality (floats to 1e-5 rel / 1e-8 abs), dask "
           "semantics, numpy/xarray/sklearn/shapely/matplotlib behind the observations, results of isel/subset/get_dual/copy (opaque terms; "
